@@ -1266,6 +1266,19 @@ pub fn do_op(api: &dyn Api, client: usize, idx: usize, op: &Op) {
             rt::stall_self_later(*ns, *skip);
             Res::Unit
         }
+        Op::GetMany { k, n } => {
+            let mut hits = 0i64;
+            for _ in 0..*n {
+                if api.get(*k, 0).is_some() {
+                    hits += 1;
+                }
+            }
+            Res::Num(hits)
+        }
+        Op::StallWorker { ns, skip } => {
+            rt::stall_task_later("processor", *ns, *skip);
+            Res::Unit
+        }
         Op::CancelNext { after } => {
             CANCEL_AFTER.with(|c| c.set(Some(*after)));
             Res::Unit
